@@ -210,6 +210,11 @@ def run(ctx, rep):
         ok = any(bb_ in b_.reachable(c.bb) for c in pm)
         rep.ob('R04.m', fn, 'reset after persist_messages', ok, '%s:%s' % (b_.file, ln_), None if ok else 'unsaved_messages_count is reset to 0 in a function that does not save the buffer first')
 
+    # ------------------------------------------------------------ R04.n writers (which create missing files) are opened before readers
+    rep.rule('R04.n', 'segment files are opened for writing (which creates a missing file) before they are opened for reading, at load and at persist: a crash between the creation of the log file and of the index file must not make the segment unloadable', floor=2, analysis='A2 ordering')
+    from props import storage_forms as sfw_
+    sfw_.writers_before_readers(ctx, rep, 'R04.n')
+
 
 LW = 'server::streaming::segments::logs::log_writer::SegmentLogWriter'
 PT = 'server::streaming::segments::logs::persister_task::PersisterTask'
